@@ -48,7 +48,9 @@ fn main() {
                     }
                     gen_solver::gen_solver::<pubgrub::Range<u32>>(&mut sink, prop, thorough, seed, debug, n);
                     // the same properties over a custom VersionSet that relies on the trait's provided methods
-                    gen_solver::gen_solver::<hset::BitSet8>(&mut sink, prop, thorough, seed ^ 0xb175, debug, n / 6)
+                    gen_solver::gen_solver::<hset::BitSet8>(&mut sink, prop, thorough, seed ^ 0xb175, debug, n / 6);
+                    // and over a 2-element universe, which the versions of one package cover
+                    gen_solver::gen_solver::<hset::BitSet2>(&mut sink, prop, thorough, seed ^ 0xb172, debug, n / 8)
                 }
                 "C08" | "C09" => gen_solver::gen_trees(&mut sink, prop, thorough, seed, debug),
                 "C07" => {
